@@ -37,4 +37,28 @@ second, unsigned builtin -/
 def uboFlag {n : Nat} (o : OvOp) (x y : BitVec n) : Bool :=
   if unsignedFlagFromSigned then (builtinS o x y).2 else (builtinU o x y).2
 
+/-! ## the emitted statement SEQUENCE, with aliasing destination/sources
+
+For `addo/subo dst, s1, s2` mir2c prints two statements,
+`{ uint64_t __u; __uoverflow = __builtin_<o>_overflow((uint64_t) s1, (uint64_t) s2, &__u); }` and
+`__overflow = __builtin_<o>_overflow((int64_t) s1, (int64_t) s2, (int64_t *)&dst);`.
+The second one writes `dst`; when `dst` is one of the sources, the order of the two statements decides
+which values the unsigned builtin reads.  `Gen.C20.uoverflowBeforeStore` (regenerated from the source
+text) says which order the translator prints. -/
+
+abbrev Regs := Nat → W64
+
+def Regs.set (r : Regs) (d : Nat) (v : W64) : Regs := fun i => if i = d then v else r i
+
+/-- registers after the two statements, `__overflow`, `__uoverflow` -/
+def emitOvf64 (uFirst : Bool) (o : OvOp) (d s1 s2 : Nat) (r : Regs) : Regs × Bool × Bool :=
+  if uFirst then
+    let u := (builtinU o (r s1) (r s2)).2
+    let sres := builtinS o (r s1) (r s2)
+    (r.set d sres.1, sres.2, u)
+  else
+    let sres := builtinS o (r s1) (r s2)
+    let r' := r.set d sres.1
+    (r', sres.2, (builtinU o (r' s1) (r' s2)).2)
+
 end MirVerif.Mir2C
